@@ -639,8 +639,8 @@ pub fn check(args: &CheckArgs) -> i32 {
             "known_findings_matched": reported.known.iter().map(|(s, _)| s).collect::<Vec<_>>(),
             "event_log_digest": format!("{:016x}", agg.log_digest),
             "components": {
-                "real": ["pyxis::parser", "pyxis::grammar", "pyxis::semantic (all of it)", "pyxis::backends::rust", "pyxis::build", "glob", "syn/quote/prettyplease", "std::fs on a tmpfs scratch tree"],
-                "stubbed": ["iteration order of TypeRegistry.types at unresolved() (H1)", "iteration order of modules at write time (H2)", "iteration order of Module.definition_paths before the sort (H3)"],
+                "real": ["pyxis::parser", "pyxis::grammar", "pyxis::semantic (all of it)", "pyxis::backends::rust", "pyxis::build with its directory walk", "syn/quote/prettyplease", "std::fs on a tmpfs scratch tree (real symlinks, real over-long paths, real non-UTF-8 names, real EFBIG through RLIMIT_FSIZE)", "a build thread with a 512 KiB stack (stands in for 2 MiB in an unoptimised build)", "RLIMIT_AS and a counting allocator"],
+                "stubbed": ["iteration order of TypeRegistry.types at unresolved() (H1)", "iteration order of modules at write time (H2)", "iteration order of Module.definition_paths before the sort (H3)", "order of the resolved-types list in the non-termination error (H4)", "order in which modules resolve their extern values (H5)"],
                 "driver": "driver_* entries replace lib.rs's discover/add/build/write loop by the same calls through the public API so that module addition order can be chosen"
             }
         },
